@@ -21,9 +21,9 @@ PROPERTY = {
         'each wrapped access is atomic under the GIL; the code of a thread is deterministic given the values it reads',
         'vacuity guard: the same machinery run on a twin in which one slot is a plain (non thread-local) object must find and replay a real violation',
     ],
-    'bounds': {'threads': '2 (quick) / 2..3 (thorough)', 'scenarios': 'pairs/triples over 8 thread bodies (safe file, unsafe file, file with include, failing input after a good source, multi-document file, evaluated unsafe call (refused), the same call from a safe file, evaluated safe file with xref/eval/call sharing paths with the former)',
+    'bounds': {'threads': '2 (quick) / 2..4 (thorough)', 'scenarios': 'quick: 9 pairs; thorough: all 36 pairs (with repetition), all 56 triples and 4 quadruples over 8 thread bodies (safe file, unsafe file, file with include, failing input after a good source, multi-document file, evaluated unsafe call (refused), the same call from a safe file, evaluated safe file with xref/eval/call sharing paths with the former)',
                'events': '<= ~400 per thread'},
-    'outside': ['thread inputs beyond the listed bodies', 'more than 3 threads', 'shared state outside the package (sys.modules entries created by multi-line !eval are outside: the !eval here is a single expression)'],
+    'outside': ['thread inputs beyond the listed bodies', 'more than 4 threads', 'shared state outside the package (sys.modules entries created by multi-line !eval are outside: the !eval here is a single expression)'],
 }
 
 
@@ -56,7 +56,12 @@ def scenarios(tier):
     pairs = [('A', 'B'), ('A', 'C'), ('B', 'C'), ('A', 'D'), ('C', 'D'), ('B', 'D'), ('B', 'F'), ('H', 'G'), ('F', 'G'), ('E', 'C'), ('D', 'F'), ('A', 'A'), ('G', 'G')]
     if tier == 'quick':
         return [list(p) for p in pairs[:9]]
-    return [list(p) for p in pairs] + [['A', 'B', 'C'], ['A', 'C', 'D'], ['B', 'D', 'F'], ['C', 'E', 'F'], ['H', 'G', 'D']]
+    import itertools
+    names = 'ABCDEFGH'
+    out = [list(p) for p in itertools.combinations_with_replacement(names, 2)]            # all 36 pairs (a body may run twice)
+    out += [list(t) for t in itertools.combinations(names, 3)]                               # all 56 triples of distinct bodies
+    out += [['A', 'B', 'C', 'D'], ['D', 'F', 'G', 'H'], ['C', 'E', 'G', 'H'], ['G', 'G', 'H', 'H']]
+    return out
 
 
 def run(tier, seed, twin=False):
